@@ -14,6 +14,10 @@ Statements are abstracted to what decides the control flow of the two loops:
   empty        Sql == ""
   query f      a read-only statement that succeeds; `f` = ForceQuery
   queryFail    a read-only statement that prepares but fails when stepped
+  partialFail δ  a statement that is NOT atomic on its own and fails part-way, leaving effect δ
+               behind unless an enclosing transaction is rolled back: a text holding several
+               commands (`INSERT δ; <failing insert>`, go-sqlite3 executes them in turn) or a
+               multi-row `INSERT OR FAIL` whose later row violates a constraint
   begin / commit / rollback   explicit transaction control
 
 The SQLite side (`sqlRun`) is the assumed semantics of one connection in WAL
@@ -40,6 +44,7 @@ inductive Stmt where
   | empty
   | query (force : Bool)
   | queryFail
+  | partialFail (d : Nat)
   | begin
   | commit
   | rollback
@@ -68,6 +73,7 @@ def sqlRun (db : Db) : Stmt → Option Db
   | .empty => some db
   | .query _ => some db
   | .queryFail => none
+  | .partialFail _ => none
   | .begin =>
     match db.open_ with
     | some _ => none
@@ -80,6 +86,11 @@ def sqlRun (db : Db) : Stmt → Option Db
     match db.open_ with
     | some _ => some { db with open_ := none }
     | none => none
+
+/-- what a FAILING statement leaves behind on the connection (nothing, except `partialFail`) -/
+def failEffect (db : Db) : Stmt → Db
+  | .partialFail d => db.write d
+  | _ => db
 
 /-- `sqlite3_prepare` succeeds -/
 def prepares : Stmt → Bool
@@ -123,13 +134,13 @@ def execRes (db : Db) : Stmt → Res
 /-- `executeStmtWithConn`: (new db, result, error?) -/
 def executeStmt (db : Db) (s : Stmt) : Db × Res × Bool :=
   match sqlRun db s with
-  | none => (db, .err, true)
+  | none => (failEffect db s, .err, true)
   | some db' => (db', if forced s then .q (rowsOf db s) else execRes db s, false)
 
 /-- `queryStmtWithConn` wrapped by `createEQQueryResponse` -/
 def queryStmt (db : Db) (s : Stmt) : Db × Res × Bool :=
   match sqlRun db s with
-  | none => (db, .err, true)
+  | none => (failEffect db s, .err, true)
   | some db' => (db', .q (rowsOf db s), false)
 
 /-- `tx.Rollback()` / `ROLLBACK` whose error is ignored -/
@@ -229,7 +240,7 @@ def request (db : Db) (r : Req) : Out :=
 `req <exec|request> <tx 0|1> <rb 0|1> <stmt,stmt,…|->` →
    `<res;res;…|-> <committed> <open|-> <err 0|1>`
 statement tokens: `w<δ>` ok, `r<δ>` returning, `R<δ>` returning+ForceQuery, `xf` execFail,
-`pf` prepFail, `e` empty, `q` query, `Q` query+ForceQuery, `qf` queryFail, `b`, `c`, `rb`.
+`pf` prepFail, `e` empty, `q` query, `Q` query+ForceQuery, `qf` queryFail, `p<δ>` partialFail, `b`, `c`, `rb`.
 result tokens: `E<rowid>`, `E*`, `Q<ids .-separated>`, `err`. Lists of ids are `.`-separated, `-` when empty. -/
 
 structure DState where
@@ -247,6 +258,7 @@ def parseStmt (t : String) : Option Stmt :=
   | ['c'] => some .commit
   | ['r', 'b'] => some .rollback
   | 'w' :: ds => (String.ofList ds).toNat?.map .ok
+  | 'p' :: ds => (String.ofList ds).toNat?.map .partialFail
   | 'r' :: ds => (String.ofList ds).toNat?.map (.returning · false)
   | 'R' :: ds => (String.ofList ds).toNat?.map (.returning · true)
   | _ => none
